@@ -90,6 +90,13 @@ func init() {
 			{ID: "C06-D6-swallow-entry-error", File: "core/dutydb/memory.go", Expect: "D6", // nested store errors are propagated
 				Old: "\t\t\tif err := db.storeSyncContributionEntryUnsafe(entry); err != nil {\n\t\t\t\treturn err\n\t\t\t}\n",
 				New: "\t\t\t_ = db.storeSyncContributionEntryUnsafe(entry)\n"},
+			// --- path-sensitive error analysis (w3): the rejecting edge must really end in a non-nil error
+			{ID: "C06-D2-clash-error-dropped", File: "core/dutydb/memory.go", Expect: "D2",
+				Old: "\t\tif existingRoot != providedRoot {\n\t\t\treturn errors.New(\"clashing blocks\")\n\t\t}\n",
+				New: "\t\tif existingRoot != providedRoot {\n\t\t\t_ = errors.New(\"clashing blocks\")\n\t\t}\n"},
+			{ID: "C06-D2-clash-returns-nil", File: "core/dutydb/memory.go", Expect: "D2",
+				Old: "\t\t\treturn errors.New(\"clashing sync contributions\")\n",
+				New: "\t\t\treturn nil // tolerated\n"},
 			{ID: "C06-D6-new-pubkey-skips-rest", File: "core/dutydb/memory.go", Expect: "D6", // must-pass between consecutive keys
 				Old: "pKey)\n\t}\n\n\t// Store key and value for AwaitAttestation\n\taKey := attKey{",
 				New: "pKey)\n\n\t\treturn nil\n\t}\n\n\t// Store key and value for AwaitAttestation\n\taKey := attKey{"},
@@ -308,18 +315,28 @@ func c06D2(c *rt.Ctx, m *c06Model) {
 						stored = append(stored, o.val)
 					}
 				}
+				opaque := false
 				path, esc := an.H06Escape(e.lk, an.H06Opt{Env: e.env(true), NoReenter: true,
 					Effect: func(in ssa.Instruction) bool {
 						for _, sv := range stored {
 							if c06RejectingComparison(m, in, sv) || c06RejectingCall(m, in, sv) {
 								return true
 							}
+							if c06OpaqueCheck(m, in, sv) {
+								opaque = true
+								return true
+							}
 						}
 						return false
 					},
-					ReturnOK: func(r *ssa.Return, _ an.H06Env) bool { return !c06SuccessReturn(r) || c06ErrReturnNonNil(r) }})
-				c.Check(an.FuncName(fn)+" existing-key branch of "+short+" rejects clashes", e.lk.Pos(), !esc,
-					"when the key already exists the function can report success without comparing the stored value with the new one (conflicting data is silently accepted): "+an.PathString(c.P, path))
+					Facts: c06ErrFacts, ReturnOK: c06RetOK})
+				name := an.FuncName(fn) + " existing-key branch of " + short + " rejects clashes"
+				if !esc && opaque {
+					c.Unsure(name, e.lk.Pos(), "the stored value is handed to a function value the rule cannot resolve (its error is propagated); cannot show that it compares the stored value with the new one")
+				} else {
+					c.Check(name, e.lk.Pos(), !esc,
+						"when the key already exists the function can report success without comparing the stored value with the new one (conflicting data is silently accepted): "+an.PathString(c.P, path))
+				}
 			}
 		}
 	}
@@ -380,16 +397,10 @@ func c06RejectingComparison(m *c06Model, in ssa.Instruction, stored ssa.Value) b
 	if !ok || stored == nil {
 		return false
 	}
-	rejects := false
-	for _, s := range iff.Block().Succs {
-		if c06ReturnsError(s) {
-			rejects = true
-		}
-	}
-	if !rejects {
+	if !c06ContentCond(m, iff.Cond, stored, 0) {
 		return false
 	}
-	return c06ContentCond(m, iff.Cond, stored, 0)
+	return c06EdgeRejects(iff, 0) || c06EdgeRejects(iff, 1)
 }
 
 // c06RejectingCall: a call of an in-package helper that compares the stored value (passed as an argument) and
@@ -399,13 +410,40 @@ func c06RejectingCall(m *c06Model, in ssa.Instruction, stored ssa.Value) bool {
 	if !ok || stored == nil || !c06HasErrResult(call) || !c06ArgsDependOn(call, stored) {
 		return false
 	}
-	found := false
+	if !c06CallCompares(m, call) {
+		return false
+	}
+	_, swallowed := c06SwallowPath(call)
+	return !swallowed
+}
+
+// c06CallCompares: a function that certainly runs during the call (static callee, function argument) contains a
+// rejecting comparison of a parameter; or the callee is a function value and every function it may denote does.
+func c06CallCompares(m *c06Model, call *ssa.Call) bool {
 	for _, g := range m.during(call) {
 		if c06HasRejectingComparison(g) {
-			found = true
+			return true
 		}
 	}
-	if !found {
+	if set, ok := m.dynamic(call); ok {
+		for _, g := range set.fns {
+			if !c06HasRejectingComparison(g) {
+				return false
+			}
+		}
+		return true
+	}
+	return false
+}
+
+// c06OpaqueCheck: a call through a function value the rule cannot resolve that receives the stored value and whose
+// error is propagated: it may well be the clash check.
+func c06OpaqueCheck(m *c06Model, in ssa.Instruction, stored ssa.Value) bool {
+	call, ok := in.(*ssa.Call)
+	if !ok || stored == nil || !m.isDynamicCall(call) || !c06HasErrResult(call) || !c06ArgsDependOn(call, stored) {
+		return false
+	}
+	if _, ok := m.dynamic(call); ok {
 		return false
 	}
 	_, swallowed := c06SwallowPath(call)
@@ -444,12 +482,7 @@ func c06ContentCond(m *c06Model, cond ssa.Value, stored ssa.Value, d int) bool {
 			if call == nil || !c06ArgsDependOn(call, stored) {
 				return false
 			}
-			for _, g := range m.during(call) {
-				if c06HasRejectingComparison(g) {
-					return true
-				}
-			}
-			return false
+			return c06CallCompares(m, call)
 		}
 		if an.IsErrorType(x.X.Type()) {
 			return false
@@ -507,10 +540,8 @@ func c06HasRejectingComparison(g *ssa.Function) bool {
 		if !fromParam {
 			continue
 		}
-		for _, s := range b.Succs {
-			if c06ReturnsError(s) {
-				return true
-			}
+		if c06EdgeRejects(iff, 0) || c06EdgeRejects(iff, 1) {
+			return true
 		}
 	}
 	return false
@@ -529,17 +560,64 @@ func c06Lookups(fn *ssa.Function, field string) []*ssa.Lookup {
 	return out
 }
 
-// c06ReturnsError: block b (following straight-line successors) returns a non-nil error.
-func c06ReturnsError(b *ssa.BasicBlock) bool {
-	for i := 0; i < 6 && b != nil; i++ {
-		if r, ok := b.Instrs[len(b.Instrs)-1].(*ssa.Return); ok {
-			e, has := c06ErrOf(r)
-			return has && !c06MayBeNil(e, map[ssa.Value]bool{})
-		}
-		if len(b.Succs) != 1 {
+// c06EdgeRejects: every path that leaves the branch by successor #si ends in a return that does not report success
+// (the error it returns is non-nil on that path: phis are resolved along the path, so `err = errors.New(..)` followed
+// by a shared `return err` counts), and at least one such return exists.
+func c06EdgeRejects(iff *ssa.If, si int) bool {
+	b := iff.Block()
+	if len(b.Succs) != 2 || b.Succs[0] == b.Succs[1] {
+		return false
+	}
+	cond := iff.Cond
+	nRet := 0
+	_, esc := an.H06Escape(iff, an.H06Opt{Facts: c06ErrFacts,
+		Env: func(v ssa.Value) (constant.Value, bool) {
+			if v == cond {
+				return constant.MakeBool(si == 0), true
+			}
+			return nil, false
+		},
+		ReturnOK: func(r *ssa.Return, known an.H06Env) bool {
+			if _, has := c06ErrOf(r); has && c06RetOK(r, known) {
+				nRet++
+				return true
+			}
 			return false
+		}})
+	return !esc && nRet > 0
+}
+
+// c06ErrFacts: invariant facts about error values: a value that can never be nil (errors.New, errors.Wrap, a sentinel,
+// the result of a helper that always builds an error) is known non-nil wherever it is computed.
+func c06ErrFacts(v ssa.Value) (constant.Value, bool) {
+	if !an.IsErrorType(v.Type()) {
+		return nil, false
+	}
+	switch an.Unwrap(v).(type) {
+	case *ssa.Phi, *ssa.Const, *ssa.Parameter, *ssa.FreeVar:
+		return nil, false
+	}
+	if !c06MayBeNil(v, map[ssa.Value]bool{}) {
+		return an.H06NonNil, true
+	}
+	return nil, false
+}
+
+// c06RetOK: the return does not report success on the path that reached it: it has an error result that is non-nil
+// (by construction, by a dominating `err != nil` test, or by what is known on the path).
+func c06RetOK(r *ssa.Return, known an.H06Env) bool {
+	if !c06SuccessReturn(r) || c06ErrReturnNonNil(r) {
+		return true
+	}
+	if known != nil {
+		if e, has := c06ErrOf(r); has {
+			if k, ok := an.H06Eval(e, known); ok && an.H06IsNonNil(k) {
+				return true
+			}
+			if k, ok := an.H06Eval(an.Unwrap(e), known); ok && an.H06IsNonNil(k) {
+				return true
+			}
 		}
-		b = b.Succs[0]
 	}
 	return false
 }
@@ -590,7 +668,7 @@ func c06D6(c *rt.Ctx, m *c06Model) {
 			continue
 		}
 		sort.Slice(sites, func(i, j int) bool { return posOf(sites[i].in) < posOf(sites[j].in) })
-		retOK := func(r *ssa.Return, _ an.H06Env) bool { return !c06SuccessReturn(r) || c06ErrReturnNonNil(r) }
+		retOK := c06RetOK
 		// chain: are the sites totally ordered by dominance?
 		chain := true
 		for i := range sites {
@@ -615,18 +693,23 @@ func c06D6(c *rt.Ctx, m *c06Model) {
 			switch {
 			case prev != nil:
 				target := s.in
-				path, esc := an.H06Escape(prev, an.H06Opt{NoReenter: true, ReturnOK: retOK,
+				path, esc := an.H06Escape(prev, an.H06Opt{NoReenter: true, ReturnOK: retOK, Facts: c06ErrFacts,
 					Effect: func(in ssa.Instruction) bool { return in == target }})
 				c.Check(name, posOf(s.in), !esc, why+": "+an.PathString(c.P, path))
 			case chain:
-				good := true
+				// first key: no path from the entry to a success return avoids it (path-sensitive: a shared
+				// `return err` behind `if err == nil { ... }` nesting is a success only where err may be nil)
+				target := s.in
+				first := fn.Blocks[0].Instrs[0]
+				path, esc := an.H06Escape(first, an.H06Opt{Inclusive: true, ReturnOK: retOK, Facts: c06ErrFacts,
+					Effect: func(in ssa.Instruction) bool { return in == target }})
 				pos := posOf(s.in)
-				for _, r := range an.Returns(fn) {
-					if !retOK(r, nil) && !an.Dominates(s.in, r) {
-						good, pos = false, posOf(r)
+				if esc && len(path) > 0 {
+					if r, ok := path[len(path)-1].Instrs[len(path[len(path)-1].Instrs)-1].(*ssa.Return); ok {
+						pos = posOf(r)
 					}
 				}
-				c.Check(name, pos, good, why)
+				c.Check(name, pos, !esc, why+": "+an.PathString(c.P, path))
 			default:
 				c.Good(name, posOf(s.in), "first key of an alternative branch")
 			}
@@ -686,7 +769,7 @@ func c06SwallowPath(v ssa.Value) ([]*ssa.BasicBlock, bool) {
 		}
 		return nil, false
 	}
-	return an.H06Escape(call, an.H06Opt{Env: env, NoReenter: true,
+	return an.H06Escape(call, an.H06Opt{Env: env, NoReenter: true, Facts: c06ErrFacts,
 		ReturnOK: func(r *ssa.Return, known an.H06Env) bool {
 			e, has := c06ErrOf(r)
 			if !has {
@@ -698,7 +781,7 @@ func c06SwallowPath(v ssa.Value) ([]*ssa.BasicBlock, bool) {
 			if k, ok := an.H06Eval(e, known); ok && an.H06IsNonNil(k) {
 				return true
 			}
-			return !c06SuccessReturn(r) || c06ErrReturnNonNil(r)
+			return c06RetOK(r, known)
 		}})
 }
 
@@ -999,6 +1082,49 @@ type c06Resolver struct {
 	backs   []*ssa.Store // every store into the queries field in fn
 	sendFr  *c06Frame    // frame of the send: fr, or a per-query helper called from the loop body
 	sendAt  *ssa.Call    // the call of that helper inside the loop (nil when sendFr == fr)
+	phiSend *ssa.Send    // the send, when the value sent is a variable holding the looked-up value or a zero value
+}
+
+// c06SentLookup: the value sent is the result of a map lookup, possibly held in a variable that is otherwise only
+// assigned zero values (`var value T; if found, ok := m[k]; ok { value = found }`): returns that lookup.
+func c06SentLookup(v ssa.Value) (lk *ssa.Lookup, viaPhi bool) {
+	var found []*ssa.Lookup
+	seen := map[ssa.Value]bool{}
+	ok := true
+	var walk func(v ssa.Value, d int)
+	walk = func(v ssa.Value, d int) {
+		v = an.Unwrap(v)
+		if seen[v] || d > 6 {
+			return
+		}
+		seen[v] = true
+		switch x := v.(type) {
+		case *ssa.Extract:
+			if l, isLk := x.Tuple.(*ssa.Lookup); isLk && x.Index == 0 {
+				found = append(found, l)
+				return
+			}
+			ok = false
+		case *ssa.Lookup:
+			found = append(found, x)
+		case *ssa.Const:
+			if !c06ZeroConst(x) {
+				ok = false
+			}
+		case *ssa.Phi:
+			viaPhi = true
+			for _, e := range x.Edges {
+				walk(e, d+1)
+			}
+		default:
+			ok = false
+		}
+	}
+	walk(v, 0)
+	if !ok || len(found) != 1 {
+		return nil, false
+	}
+	return found[0], viaPhi
 }
 
 func c06D4(c *rt.Ctx, m *c06Model) {
@@ -1143,6 +1269,58 @@ func c06D4(c *rt.Ctx, m *c06Model) {
 	for _, f := range m.all {
 		dirty[f] = map[string]bool{}
 	}
+	// discharged: the dirty function g is handed, as a function value, to an in-package helper h together with a
+	// function that always resolves the field, and inside h every call of the first parameter is followed by a call of
+	// the second before h returns or unlocks (`register(enqueue, resolve)`, `storeAll(store, resolve)`): what g leaves
+	// unresolved is resolved before the call returns.
+	discharged := func(in ssa.Instruction, g *ssa.Function, field string) bool {
+		ci, ok := in.(ssa.CallInstruction)
+		if !ok {
+			return false
+		}
+		cc := ci.Common()
+		h := m.funcOf(cc.Value)
+		if cc.IsInvoke() || h == nil || !m.inPkg(h) || h.Blocks == nil || h == g || len(cc.Args) != len(h.Params) {
+			return false
+		}
+		if _, isMC := an.Resolve(cc.Value).(*ssa.MakeClosure); isMC && h.Signature.Recv() != nil {
+			return false
+		}
+		gi := -1
+		for i, a := range cc.Args {
+			carries := false
+			for _, cf := range m.carried(a) {
+				if cf == g {
+					carries = true
+				}
+			}
+			if _, isSig := a.Type().Underlying().(*types.Signature); isSig && (m.argFn(a) == g || carries) {
+				if gi >= 0 {
+					return false
+				}
+				gi = i
+			}
+		}
+		if gi < 0 {
+			return false
+		}
+		for j, a := range cc.Args {
+			if j == gi {
+				continue
+			}
+			if _, isSig := a.Type().Underlying().(*types.Signature); !isSig {
+				continue
+			}
+			rf := m.argFn(a)
+			if rf == nil || !m.inPkg(rf) || !alwaysResolves(rf, field) {
+				continue
+			}
+			if c06ParamFollowed(h, gi, j, isUnlock) {
+				return true
+			}
+		}
+		return false
+	}
 	events := func(fn *ssa.Function, field string) []ssa.Instruction {
 		var out []ssa.Instruction
 		r := resFor[field]
@@ -1163,7 +1341,7 @@ func c06D4(c *rt.Ctx, m *c06Model) {
 					continue
 				}
 				for _, g := range m.during(in) {
-					if dirty[g][field] {
+					if dirty[g][field] && !discharged(in, g, field) {
 						out = append(out, in)
 						break
 					}
@@ -1260,10 +1438,103 @@ func c06D4(c *rt.Ctx, m *c06Model) {
 		}
 		return false
 	}
+	// caseSplit: the event is a call of a dispatcher `g(kind, ...)` that compares a parameter with constants; the same
+	// SSA value `kind` may select the resolver later (`resolve(kind)`). For every constant the parameter is compared
+	// with (and one value different from all of them) under which g can reach a store of this field at all, the
+	// search from the event is repeated with the argument fixed to that constant.
+	caseSplit := func(e ssa.Instruction, field string) bool {
+		call, ok := e.(*ssa.Call)
+		if !ok {
+			return false
+		}
+		g := call.Call.StaticCallee()
+		if g == nil || !m.inPkg(g) || g.Blocks == nil || len(call.Call.Args) != len(g.Params) || len(g.Blocks[0].Instrs) == 0 {
+			return false
+		}
+		first := g.Blocks[0].Instrs[0]
+		for i, p := range g.Params {
+			a := call.Call.Args[i]
+			if _, isConst := a.(*ssa.Const); isConst {
+				continue
+			}
+			vals := c06ComparedConsts(g, p)
+			if len(vals) < 2 {
+				continue
+			}
+			all := true
+			for _, cv := range vals {
+				cv := cv
+				penv := func(x ssa.Value) (constant.Value, bool) {
+					if x == ssa.Value(p) {
+						return cv, true
+					}
+					return nil, false
+				}
+				reachable := false
+				for _, ev := range events(g, field) {
+					if _, reach := an.H06Escape(first, an.H06Opt{Env: penv, Target: ev, Inclusive: true}); reach {
+						reachable = true
+						break
+					}
+				}
+				if !reachable {
+					continue // under this value g stores nothing of this kind
+				}
+				base := an.H06FactsAt(e)
+				env := func(x ssa.Value) (constant.Value, bool) {
+					if x == a {
+						return cv, true
+					}
+					return base(x)
+				}
+				if _, esc := an.H06Escape(e, an.H06Opt{Env: env, Effect: effect(field), EffectEnv: effectUnder(field), Exit: isUnlock,
+					ReturnOK: deferredOK(e, field, false), Prune: c06UnchangedLen(m, e, field)}); esc {
+					all = false
+					break
+				}
+			}
+			if all {
+				return true
+			}
+		}
+		return false
+	}
+	// higherOrder: the event is a call that hands function values to an in-package helper, or a call through a
+	// function value: in which order the helper runs them is decided inside it
+	higherOrder := func(e ssa.Instruction) bool {
+		ci, ok := e.(ssa.CallInstruction)
+		if !ok {
+			return false
+		}
+		if m.isDynamicCall(e) {
+			return true
+		}
+		h := m.funcOf(ci.Common().Value)
+		if h == nil || !m.inPkg(h) {
+			return false
+		}
+		n := 0
+		for _, a := range ci.Common().Args {
+			if _, isSig := a.Type().Underlying().(*types.Signature); isSig {
+				n++
+			}
+		}
+		return n >= 2
+	}
 	// obligations
 	for _, fn := range m.all {
 		for _, field := range fields {
 			r := resFor[field]
+			for _, in := range an.Instrs(fn, false) {
+				if _, isGo := in.(*ssa.Go); isGo {
+					continue
+				}
+				for _, g := range m.during(in) {
+					if dirty[g][field] && discharged(in, g, field) {
+						c.Good(c06FnLabel(fn)+" "+an.FuncName(g)+"→"+an.FuncName(r.fn)+" inside helper", posOf(in), "the helper runs the resolver after every call of the storing / registering function value")
+					}
+				}
+			}
 			for _, e := range events(fn, field) {
 				path, esc := escapes(e, field)
 				var name string
@@ -1283,8 +1554,12 @@ func c06D4(c *rt.Ctx, m *c06Model) {
 				switch {
 				case !esc:
 					c.Good(name, posOf(e), "")
+				case !endsCS(e) && caseSplit(e, field):
+					c.Good(name, posOf(e), "resolved for every value of the dispatching argument")
 				case (isRoot(fn) || endsCS(e)) && dispatcher(e, field):
 					c.Unsure(name, posOf(e), "the call stores data of several duty kinds depending on an argument; the rule cannot correlate that argument with the resolver that runs afterwards: "+an.PathString(c.P, path))
+				case (isRoot(fn) || endsCS(e)) && higherOrder(e):
+					c.Unsure(name, posOf(e), "function values are handed to a helper (or called through a variable); the rule cannot follow in which order they run inside it: "+an.PathString(c.P, path))
 				case isRoot(fn) || endsCS(e):
 					why := "path from a store call (which may have inserted) to the end of the critical section that skips resolving the blocked queries: "
 					if _, isReg := e.(*ssa.Store); isReg {
@@ -1404,6 +1679,91 @@ func c06UnchangedLen(m *c06Model, e ssa.Instruction, field string) func(b *ssa.B
 	}
 }
 
+// c06ParamFollowed: inside h, parameters #i and #j are only ever called, and every path from a call of #i reaches a
+// call of #j before h returns or releases a mutex.
+func c06ParamFollowed(h *ssa.Function, i, j int, isUnlock func(ssa.Instruction) bool) bool {
+	if i >= len(h.Params) || j >= len(h.Params) {
+		return false
+	}
+	callsOf := func(p *ssa.Parameter) ([]*ssa.Call, bool) {
+		var out []*ssa.Call
+		for _, ref := range *p.Referrers() {
+			switch r := ref.(type) {
+			case *ssa.DebugRef:
+			case *ssa.Call:
+				if r.Call.Value != ssa.Value(p) {
+					return nil, false
+				}
+				out = append(out, r)
+			default:
+				return nil, false
+			}
+		}
+		return out, true
+	}
+	ci, ok1 := callsOf(h.Params[i])
+	cj, ok2 := callsOf(h.Params[j])
+	if !ok1 || !ok2 || len(ci) == 0 || len(cj) == 0 {
+		return false
+	}
+	isJ := func(in ssa.Instruction) bool {
+		for _, c := range cj {
+			if in == ssa.Instruction(c) {
+				return true
+			}
+		}
+		return false
+	}
+	for _, c := range ci {
+		if _, esc := an.H06Escape(c, an.H06Opt{Effect: isJ, Exit: isUnlock}); esc {
+			return false
+		}
+	}
+	return true
+}
+
+// c06ComparedConsts: the integer constants parameter p of g is compared with (`switch p { case A: ... }`), plus one
+// integer different from all of them (the default branch).
+func c06ComparedConsts(g *ssa.Function, p *ssa.Parameter) []constant.Value {
+	var out []constant.Value
+	var maxv int64
+	for _, in := range an.Instrs(g, false) {
+		bin, ok := in.(*ssa.BinOp)
+		if !ok || (bin.Op != token.EQL && bin.Op != token.NEQ) {
+			continue
+		}
+		var k *ssa.Const
+		if an.Unwrap(bin.X) == ssa.Value(p) {
+			k, _ = bin.Y.(*ssa.Const)
+		} else if an.Unwrap(bin.Y) == ssa.Value(p) {
+			k, _ = bin.X.(*ssa.Const)
+		}
+		if k == nil || k.Value == nil || k.Value.Kind() != constant.Int {
+			continue
+		}
+		n, exact := constant.Int64Val(k.Value)
+		if !exact {
+			return nil
+		}
+		dup := false
+		for _, o := range out {
+			if constant.Compare(o, token.EQL, k.Value) {
+				dup = true
+			}
+		}
+		if !dup {
+			out = append(out, k.Value)
+		}
+		if n > maxv {
+			maxv = n
+		}
+	}
+	if len(out) == 0 {
+		return nil
+	}
+	return append(out, constant.MakeInt64(maxv+1))
+}
+
 func c06DirtyName(m *c06Model, in ssa.Instruction, dirty map[*ssa.Function]map[string]bool, field string) string {
 	var names []string
 	for _, g := range m.during(in) {
@@ -1490,14 +1850,7 @@ func c06FindResolvers(m *c06Model) []*c06Resolver {
 				if !m.elemOf(snd.Chan, fr, l, lfr) {
 					continue
 				}
-				v := an.Unwrap(snd.X)
-				var lk *ssa.Lookup
-				switch x := v.(type) {
-				case *ssa.Extract:
-					lk, _ = x.Tuple.(*ssa.Lookup)
-				case *ssa.Lookup:
-					lk = x
-				}
+				lk, viaPhi := c06SentLookup(snd.X)
 				if lk == nil || !an.IsMapType(lk.X.Type()) {
 					continue
 				}
@@ -1505,7 +1858,11 @@ func c06FindResolvers(m *c06Model) []*c06Resolver {
 				if !ok || !c06IsData(dk) || !m.elemOf(lk.Index, fr, l, lfr) {
 					continue
 				}
-				out = append(out, &c06Resolver{fn: fn, queries: qk, data: dk, fr: lfr, loop: l, backs: backs[qk], sendFr: fr, sendAt: sendAt})
+				res := &c06Resolver{fn: fn, queries: qk, data: dk, fr: lfr, loop: l, backs: backs[qk], sendFr: fr, sendAt: sendAt}
+				if viaPhi {
+					res.phiSend = snd
+				}
+				out = append(out, res)
 				found = true
 				break
 			}
@@ -1630,17 +1987,25 @@ func c06ResolverKeeps(m *c06Model, r *c06Resolver) (string, string) {
 		blocks = append(blocks, b)
 	}
 	known, undecoded := c06NotCancelled(m, r, blocks, fr)
+	// outcomes: the valuations of the loop body to explore. Without a per-query helper there is one (nothing assumed
+	// beyond "not cancelled"). With a helper (`if db.pending(query) { keep }` or `if !db.tryResolve(query) { keep }`,
+	// either polarity): one per boolean the helper can return for an uncancelled query on a path that did not answer it;
+	// for each of them the loop must keep the query.
+	type outcome struct {
+		k     constant.Value // value of the helper call (nil: unknown)
+		exact bool
+	}
+	outcomes := []outcome{{nil, true}}
 	if r.sendAt != nil {
-		// per-query helper: under "not cancelled", every path through it answers the query or returns false; the loop
-		// is then explored for the outcome false only (a true result means answered or cancelled)
 		hf := r.sendFr.fn
 		hknown, hundec := c06NotCancelled(m, r, hf.Blocks, r.sendFr)
 		bt, isBool := r.sendAt.Type().Underlying().(*types.Basic)
 		if hundec || !isBool || bt.Kind() != types.Bool || len(hf.Blocks[0].Instrs) == 0 {
 			return rt.Undecided, "cannot summarise the per-query helper " + an.FuncName(hf)
 		}
-		lied := false
-		_, esc := an.H06Escape(hf.Blocks[0].Instrs[0], an.H06Opt{Inclusive: true,
+		outcomes = nil
+		has := map[bool]bool{}
+		an.H06Escape(hf.Blocks[0].Instrs[0], an.H06Opt{Inclusive: true,
 			Env: func(v ssa.Value) (constant.Value, bool) { k, ok := hknown[v]; return k, ok },
 			Effect: func(in ssa.Instruction) bool {
 				snd, ok := in.(*ssa.Send)
@@ -1648,39 +2013,71 @@ func c06ResolverKeeps(m *c06Model, r *c06Resolver) (string, string) {
 			},
 			ReturnOK: func(ret *ssa.Return, kn an.H06Env) bool {
 				vals := returnValues(ret)
-				if len(vals) != 1 {
-					return false
+				if len(vals) == 1 {
+					if k, ok := an.H06Eval(vals[0], kn); ok && k.Kind() == constant.Bool {
+						if !has[constant.BoolVal(k)] {
+							has[constant.BoolVal(k)] = true
+							outcomes = append(outcomes, outcome{k, true})
+						}
+						return true
+					}
 				}
-				k, ok := an.H06Eval(vals[0], kn)
-				if ok && k.Kind() == constant.Bool && constant.BoolVal(k) {
-					lied = true
+				if len(outcomes) == 0 || outcomes[len(outcomes)-1].exact {
+					outcomes = append(outcomes, outcome{nil, false})
 				}
-				return ok && k.Kind() == constant.Bool && !constant.BoolVal(k)
+				return true
 			}})
-		if esc && lied {
-			return rt.Violation, "the per-query helper " + an.FuncName(hf) + " reports an uncancelled query as done on a path that does not answer it: the query is dropped"
-		}
-		if esc {
-			return rt.Undecided, "the per-query helper " + an.FuncName(hf) + " can report an uncancelled query as done without answering it (or the rule cannot follow it)"
-		}
-		known[r.sendAt] = constant.MakeBool(false)
 	}
-	env := func(v ssa.Value) (constant.Value, bool) { k, ok := known[v]; return k, ok }
 	first := entry.Instrs[0]
 	if isKeep(first) {
 		return rt.OK, ""
 	}
-	path, esc := an.H06Escape(first, an.H06Opt{Env: env, Effect: isKeep,
-		StopBlock: func(b *ssa.BasicBlock) bool { return b == loop.Header },
-		Exit:      func(in ssa.Instruction) bool { return !loop.Body[in.Block()] }})
-	if esc {
+	env := func(v ssa.Value) (constant.Value, bool) { k, ok := known[v]; return k, ok }
+	for _, oc := range outcomes {
+		delete(known, r.sendAt)
+		if r.sendAt != nil && oc.k != nil {
+			known[r.sendAt] = oc.k
+		}
+		path, esc := an.H06Escape(first, an.H06Opt{Env: env, Effect: isKeep,
+			StopBlock: func(b *ssa.BasicBlock) bool { return b == loop.Header },
+			Exit:      func(in ssa.Instruction) bool { return !loop.Body[in.Block()] }})
+		if !esc {
+			continue
+		}
 		if undecoded {
 			return rt.Undecided, "cannot decode how the loop tests for a cancelled query"
 		}
+		if r.sendAt != nil {
+			hn := an.FuncName(r.sendFr.fn)
+			if !oc.exact {
+				return rt.Undecided, "cannot tell what the per-query helper " + hn + " returns for an uncancelled query it did not answer"
+			}
+			return rt.Violation, "the per-query helper " + hn + " returns " + oc.k.String() + " for an uncancelled query on a path that does not answer it, and the loop does not re-queue the query for that result: the query is dropped (blocks " + blockList(path) + ")"
+		}
 		return rt.Violation, "an iteration can finish without answering or re-queueing an uncancelled query: blocks " + blockList(path)
 	}
+	delete(known, r.sendAt)
 	if b := an.LoopEarlyExit(loop); b != nil {
 		return rt.Violation, "the loop over the pending queries can be left early: remaining queries are neither answered nor kept"
+	}
+	if r.phiSend != nil && r.sendFr == fr {
+		// the answer is a variable: on no path to the send may it still hold its zero value (the query would be
+		// answered with data that was never stored)
+		zero := false
+		an.H06Escape(first, an.H06Opt{Env: env, Inclusive: true,
+			Effect: func(in ssa.Instruction) bool { return in.Block() == loop.Header || !loop.Body[in.Block()] },
+			EffectEnv: func(in ssa.Instruction, kn an.H06Env) bool {
+				if in == ssa.Instruction(r.phiSend) {
+					if k, ok := an.H06Eval(r.phiSend.X, kn); ok && constant.Compare(k, token.EQL, an.H06Nil) {
+						zero = true
+					}
+				}
+				return false
+			},
+			ReturnOK: func(*ssa.Return, an.H06Env) bool { return true }})
+		if zero {
+			return rt.Violation, "a query can be answered with the zero value of the answer variable instead of the stored value"
+		}
 	}
 	return rt.OK, ""
 }
@@ -1981,7 +2378,7 @@ func c06D5(c *rt.Ctx, m *c06Model) {
 			if _, ok := isDelete(in); ok {
 				return true
 			}
-			for _, g := range m.during(in) {
+			for _, g := range m.mayDuring(in) {
 				if mayDelete(g, seen) {
 					return true
 				}
